@@ -779,6 +779,44 @@ Proof.
     rewrite H. discriminate.
 Qed.
 
+(** [regroup]: one grid row per line is its own regrouping; in general the
+    result is the file's values in file order cut into rows of [nc], each row
+    made of whole lines *)
+Lemma regroup_rows {A} (nc : nat) (rows : list (list A)) :
+  (1 <= nc)%nat -> Forall (fun r => length r = nc) rows -> regroup nc [] rows = Some rows.
+Proof.
+  intros Hnc. induction rows as [|r t IH]; intros HF; [reflexivity|].
+  inversion HF as [|x l Hr Ht]. subst x l.
+  cbn [regroup app]. rewrite Hr, Nat.eqb_refl. now rewrite (IH Ht).
+Qed.
+
+Theorem regroup_spec {A} (nc : nat) (rows : list (list A)) : forall acc grows,
+  regroup nc acc rows = Some grows ->
+  concat grows = (acc ++ concat rows)%list /\ Forall (fun r => length r = nc) grows.
+Proof.
+  induction rows as [|r t IH]; intros acc grows H; cbn [regroup] in H.
+  - destruct acc; cbn in H; [|discriminate]. injection H as <-. split; [reflexivity|constructor].
+  - destruct (Nat.eqb_spec (length (acc ++ r)%list) nc) as [E|E].
+    + destruct (regroup nc [] t) as [g'|] eqn:Eg; [|discriminate]. cbn in H. injection H as <-.
+      destruct (IH _ _ Eg) as [Hc Hf]. split.
+      * cbn [concat]. rewrite Hc. cbn [app]. now rewrite app_assoc.
+      * constructor; assumption.
+    + destruct (length (acc ++ r)%list <? nc)%nat; [|discriminate].
+      destruct (IH _ _ H) as [Hc Hf]. split; [|exact Hf].
+      rewrite Hc. cbn [concat]. now rewrite app_assoc.
+Qed.
+
+(** a line longer than a grid row is never accepted: e.g. a row-per-line
+    R x C body under a header whose column count is smaller than C (swapped
+    counts, another factorisation of the same product) *)
+Theorem regroup_long_line {A} (nc : nat) (r : list A) t :
+  (nc < length r)%nat -> regroup nc [] (r :: t) = None.
+Proof.
+  intros H. cbn [regroup app].
+  destruct (Nat.eqb_spec (length r) nc); [lia|].
+  destruct (Nat.ltb_spec (length r) nc); [lia|reflexivity].
+Qed.
+
 Theorem agree_grid_is_file fileattr dt f g o :
   read_lines pint pflt pval fileattr dt f = Ok g ->
   grid_agrees g o = true ->
@@ -790,34 +828,22 @@ Proof.
   unfold body_is in E5.
   unfold grid_is_file. rewrite E1, E2, E3, E4, E5.
   unfold grid_agrees in Ha.
-  repeat (apply andb_true_iff in Ha as [Ha ?]).
-  rewrite Hv in Ha.
-  assert (C1 : (Z.of_nat (length (og_vals o)) =? Z.of_nat nr)%Z = true).
-  { apply Z.eqb_eq. f_equal. unfold vals_eqb in Ha. apply list_eqb_length in Ha.
-    rewrite map_length in Ha. lia. }
-  assert (C2 : all_len (Z.to_nat (Z.of_nat nc)) (og_vals o) = true).
-  { rewrite Nat2Z.id. apply (vals_eqb_all_len nc _ _ Ha).
-    unfold all_len. apply forallb_forall. intros r Hr. apply in_map_iff in Hr as (r0 & <- & Hr0).
-    rewrite map_length. apply Nat.eqb_eq. rewrite Forall_forall in Hall. now apply Hall. }
-  assert (C3 : (0 <=? Z.of_nat nc)%Z = true) by (apply Z.leb_le; lia).
-  assert (C4 : list_eqb num_eqb (concat (og_vals o)) (map (mask dt) (concat rows)) = true).
-  { rewrite <- concat_map_map. rewrite (list_eqb_sym num_eqb num_eqb_sym). now apply vals_eqb_concat. }
-  rewrite C1, C2, C3, C4. cbn [andb].
-  rewrite !Nat2Z.id. rewrite <- Hn, <- He.
-  repeat match goal with Hx : _ = true |- _ => rewrite Hx; clear Hx end.
-  cbn [andb].
+  apply andb_true_iff in Ha as [Ha Adt]. apply andb_true_iff in Ha as [Ha Adims].
+  apply andb_true_iff in Ha as [Ha Afile]. apply andb_true_iff in Ha as [Ha Aid].
+  apply andb_true_iff in Ha as [Ha Aeast]. apply andb_true_iff in Ha as [Avals Anorth].
+  rewrite Hv in Avals. rewrite Hn in Anorth. rewrite He in Aeast.
+  rewrite !Nat2Z.id. rewrite (regroup_rows nc rows ltac:(lia) Hall).
+  rewrite Hlen, Z.eqb_refl, Avals, Anorth, Aeast. cbn [andb].
   assert (C5 : String.eqb (og_id o) (strip (line f 0)) = true).
-  { match goal with Hx : String.eqb (g_id g) (og_id o) = true |- _ => apply String.eqb_eq in Hx; rewrite <- Hx, Hid end.
-    apply String.eqb_refl. }
-  rewrite C5. cbn [andb].
+  { apply String.eqb_eq in Aid. rewrite <- Aid, Hid. apply String.eqb_refl. }
   assert (C6 : option_eqb String.eqb (og_file o) fileattr = true).
-  { rewrite Hf in H1. destruct fileattr as [a|], (og_file o) as [b|]; cbn in *; try discriminate; [|reflexivity].
+  { rewrite Hf in Afile. destruct fileattr as [a|], (og_file o) as [b|]; cbn in *; try discriminate; [|reflexivity].
     now rewrite String.eqb_sym. }
   assert (C7 : list_eqb String.eqb (og_dims o) ["northing"; "easting"] = true).
-  { rewrite Hd in H0. now rewrite (list_eqb_sym String.eqb String.eqb_sym). }
+  { rewrite Hd in Adims. now rewrite (list_eqb_sym String.eqb String.eqb_sym). }
   assert (C8 : dtype_eqb (og_dtype o) dt = true).
-  { rewrite Hdt in H. now destruct dt, (og_dtype o). }
-  rewrite C6, C7, C8. cbn [andb].
+  { rewrite Hdt in Adt. now destruct dt, (og_dtype o). }
+  rewrite C5, C6, C7, C8. cbn [andb].
   now apply range_agrees_status.
 Qed.
 
